@@ -460,11 +460,32 @@ func (c *fnCtx) mergeInto(b *ssa.BasicBlock) *State {
 	if all {
 		c.havocAll(st)
 	} else {
+		preTop := st.top
+		pre := map[string]string{}
+		for _, m := range mods {
+			if li.localOnly[m] {
+				pre[m] = c.comp(st, m, c.compSort(m))
+			}
+		}
 		for _, m := range mods {
 			c.havocComp(st, m)
 		}
 		if c.loopAllocates(li) {
 			c.bumpTop(st)
+		}
+		// components written only inside this activation's own allocations keep their values everywhere else
+		for _, m := range mods {
+			if !li.localOnly[m] {
+				continue
+			}
+			cond := app("<=", app("rootid", "r"), preTop)
+			for _, al := range li.outerAllocs[m] {
+				if v, ok := c.vals[al]; ok {
+					cond = sAnd(cond, sNot(app("=", app("rootid", "r"), app("rootid", v.S))))
+				}
+			}
+			hn := st.heap[m]
+			c.assume(st, fmt.Sprintf("(forall ((r Ref)) (! (=> %s (= (select %s r) (select %s r))) :pattern ((select %s r))))", cond, hn, pre[m], hn))
 		}
 	}
 	autoGhost := map[string]string{}
@@ -1020,6 +1041,49 @@ func (c *fnCtx) lookupVarY(st *State, name string, at *ssa.BasicBlock, atEnd boo
 				best = d
 			}
 		}
+		// a phi for this variable in the closest dominating block (merge of earlier branches)
+		{
+			var bestPhi *ssa.Phi
+			for _, b := range c.fn.Blocks {
+				if b == at && hdr == nil {
+					// header phis were handled above
+				}
+				if b != at && !b.Dominates(at) {
+					continue
+				}
+				for _, in := range b.Instrs {
+					phi, ok := in.(*ssa.Phi)
+					if !ok {
+						break
+					}
+					if phi.Comment == name {
+						if _, defined := c.vals[phi]; defined {
+							if bestPhi == nil || bestPhi.Block().Dominates(phi.Block()) {
+								bestPhi = phi
+							}
+						}
+					}
+				}
+			}
+			if bestPhi != nil {
+				// prefer the phi unless a later plain definition dominates the point
+				later := false
+				for i := range c.dbg[name] {
+					d := &c.dbg[name][i]
+					if d.isAddr {
+						continue
+					}
+					if (d.blk == at && atEnd || d.blk != at && d.blk.Dominates(at)) && bestPhi.Block().Dominates(d.blk) && d.blk != bestPhi.Block() {
+						if _, isPhi := d.v.(*ssa.Phi); !isPhi && d.v != ssa.Value(bestPhi) {
+							later = true
+						}
+					}
+				}
+				if !later {
+					return c.vals[bestPhi], true
+				}
+			}
+		}
 		// a variable that lives in memory (address-taken) is always read through its cell
 		for i := range c.dbg[name] {
 			d := &c.dbg[name][i]
@@ -1201,4 +1265,20 @@ func (c *fnCtx) ghostEntry(name string) string {
 		c.declare(n, "Int")
 	}
 	return n
+}
+
+
+// addrOfVar: the address of a source variable that lives in memory (an escaping Alloc).
+func (c *fnCtx) addrOfVar(name string) (string, types.Type, bool) {
+	for i := range c.dbg[name] {
+		d := &c.dbg[name][i]
+		if d.isAddr {
+			if al, ok := d.v.(*ssa.Alloc); ok {
+				if v, defined := c.vals[al]; defined {
+					return v.S, al.Type().Underlying().(*types.Pointer).Elem(), true
+				}
+			}
+		}
+	}
+	return "", nil, false
 }
